@@ -16,12 +16,10 @@ import (
 // its partial-read buffer and forgets to advance its chunk index, so the next Read finds the
 // same chunk again and the value is delivered a second time instead of io.EOF.
 //
-// Runs only while the finding is listed in known_findings.json: prints KNOWN-FINDING when it
-// still reproduces, passes silently when it no longer does.
+// Repaired in /repo by a fix: commit, so this is an always-on regression: it fails if the
+// defect returns. (Should the slug ever be listed as known instead, it prints KNOWN-FINDING
+// while it reproduces.)
 func TestC31_Known_reader_chunk_index_not_advanced(t *testing.T) {
-	if !stats.Known(propID, slugReader) {
-		t.Skip("not listed")
-	}
 	rec := stats.For(propID)
 	vals := []value{{Kind: kStr, Target: 603}}
 	vals[0].materialise()
@@ -31,7 +29,7 @@ func TestC31_Known_reader_chunk_index_not_advanced(t *testing.T) {
 		t.Fatalf("%v", err)
 	}
 	defer e.close()
-	e.known = false // this test exercises exactly the carved-out class
+	e.knownReader = false // this test exercises exactly the carved-out class
 	err = reproReader(e, vals)
 	if err == nil {
 		return // no longer reproduces
@@ -39,10 +37,10 @@ func TestC31_Known_reader_chunk_index_not_advanced(t *testing.T) {
 	if strings.Contains(err.Error(), "HARNESS-ERROR") || !strings.Contains(err.Error(), "one more value instead of EOF") {
 		t.Fatalf("unexpected outcome of the reproduction: %v", err)
 	}
-	what := stats.KnownWhat(propID, slugReader)
-	if what == "" {
-		what = slugReader
+	if !stats.Known(propID, slugReader) {
+		t.Fatalf("C31 violated (regression of %s): %v", slugReader, err)
 	}
+	what := stats.KnownWhat(propID, slugReader)
 	rec.KnownFinding(fmt.Sprintf("%s: one 603-byte value is decoded twice (%v)", what, err))
 }
 
@@ -75,17 +73,17 @@ func reproReader(e *env, vals []value) error {
 	if s, err = e.open(tr, true); err != nil {
 		return err
 	}
-	return e.readEntry(s, "k", vals, true, false)
+	_, err = e.readEntry(s, "k", vals, true, false, false)
+	return err
 }
 
 // Minimal reproduction, without rapid, of the finding "remove-only-transaction-not-committed":
 // a sop.BigData streaming store with two one-chunk entries; a second transaction does nothing
 // but Remove("k0") (which returns true) and commits without error; a third transaction still
 // finds "k0".
+//
+// Repaired in /repo by a fix: commit: always-on regression, fails if the defect returns.
 func TestC31_Known_remove_only_transaction_not_committed(t *testing.T) {
-	if !stats.Known(propID, slugRemoveOnly) {
-		t.Skip("not listed")
-	}
 	rec := stats.For(propID)
 	e, err := newEnv(program{Slot: 100, Keys: []string{"k0", "k1"}}, rec)
 	if err != nil {
@@ -99,10 +97,10 @@ func TestC31_Known_remove_only_transaction_not_committed(t *testing.T) {
 	if !still {
 		return // no longer reproduces
 	}
-	what := stats.KnownWhat(propID, slugRemoveOnly)
-	if what == "" {
-		what = slugRemoveOnly
+	if !stats.Known(propID, slugRemoveOnly) {
+		t.Fatalf("C31 violated (regression of %s): Remove(\"k0\")=true and Commit()=nil in a transaction with no other change, yet the next transaction finds \"k0\"", slugRemoveOnly)
 	}
+	what := stats.KnownWhat(propID, slugRemoveOnly)
 	rec.KnownFinding(what + ": Remove(\"k0\")=true and Commit()=nil in a transaction with no other change, yet the next transaction finds \"k0\"")
 }
 
@@ -147,4 +145,45 @@ func reproRemoveOnly(e *env) (stillThere bool, err error) {
 		return false, err
 	}
 	return s.FindOne(e.ctx, "k0")
+}
+
+// Minimal reproduction, without rapid, of the finding "refetch-after-slot-shift-returns-empty"
+// (sop.BigData store): txn 1 adds "a" and "k1"; txn 2 updates "k1" (its chunks now live in the
+// blob store only); txn 3 reads "k1" (fine), adds "b" - which sorts before "k1" and shifts the
+// node's slots - and reads "k1" again: the underlying GetCurrentValue returns empty chunks
+// without an error, so the entry decodes to nothing (EOF at value #0).
+func TestC31_Known_refetch_after_slot_shift_returns_empty(t *testing.T) {
+	if !stats.Known(propID, slugRefetch) {
+		t.Skip("not listed")
+	}
+	rec := stats.For(propID)
+	two := func(n int) []value {
+		vs := []value{{Kind: kStr, Target: 20 + n, Seed: n}, {Kind: kStr, Target: 30 + n, Seed: n}}
+		vs[0].materialise()
+		vs[1].materialise()
+		return vs
+	}
+	p := program{Slot: 52, Keys: []string{"a", "b", "k1"}, Txns: []txn{
+		{Ops: []op{{Kind: opAdd, Key: "k1", Vals: two(1)}, {Kind: opAdd, Key: "a", Vals: two(5)}}},
+		{Ops: []op{{Kind: opUpdate, Key: "k1", Vals: two(2)}}},
+		{Reopen: true, Ops: []op{{Kind: opRead, Key: "k1"}, {Kind: opAdd, Key: "b", Vals: two(3)}, {Kind: opRead, Key: "k1"}}},
+	}}
+	e, err := newEnv(p, rec)
+	if err != nil {
+		t.Fatalf("%v", err)
+	}
+	defer e.close()
+	e.knownRefetch = false // this test exercises exactly the carved-out class
+	_, _, err = e.run(p)
+	if err == nil {
+		return // no longer reproduces
+	}
+	if strings.Contains(err.Error(), "HARNESS-ERROR") || !strings.Contains(err.Error(), "txn 2 op 2 read(\"k1\")") {
+		t.Fatalf("unexpected outcome of the reproduction: %v", err)
+	}
+	what := stats.KnownWhat(propID, slugRefetch)
+	if what == "" {
+		what = slugRefetch
+	}
+	rec.KnownFinding(fmt.Sprintf("%s: read k1, add b, read k1 in one transaction: %v", what, err))
 }
